@@ -132,6 +132,30 @@ class Driver:
         self.loop.tick()
         self._end(("timeout", i))
 
+    def race_frame(self, i, seq, name):
+        """the response is handled in the very loop iteration in which the command's timeout expires (the I/O callback runs
+        first, then the due timer, and only afterwards the waiting coroutine resumes).  Whether the call then returns the
+        payload or raises the timeout is left open by the property; it must be one of the two, and everything else must go
+        on as usual.  Not part of the Coq machine: judged by the property predicate."""
+        import bellows.types as t
+        cid, tx, rx = self.proto.COMMANDS[name]
+        vals = [et.gen_value(ty, self.rng, "rand") for ty in rx.values()] if isinstance(rx, dict) else et.gen_value(rx, self.rng, "rand")
+        payload = t.serialize_dict(vals, {}, rx) if isinstance(rx, dict) else vals.serialize()
+        saved = self.proto._seq
+        self.proto._seq = seq
+        hdr = bytes(self.proto._ezsp_frame_tx(name))
+        self.proto._seq = saved
+        lp = self.loop
+        lp.settle()
+        nd = lp.next_deadline()
+        if nd is not None:
+            lp._vt = max(lp._vt, nd)
+        lp.call_soon(self.ez.frame_received, hdr + payload)
+        lp.call_soon(lp.stop)
+        lp.run_forever()          # one iteration: [the frame, stop, the due timer]
+        lp.settle()
+        self._end(("race", i, seq, cid, et.flat_schema_values(rx, vals)))
+
     def cancel(self, i):
         self.tasks[i].cancel()
         self.loop.settle()
@@ -215,6 +239,8 @@ def run_script(version, calls, script, seq0=0, max_steps=60):
                 d.frame(seq, name)
             elif r == "never":
                 d.timeout(i)
+            elif r == "race":              # the reply and the expiry of the timeout in one loop iteration
+                d.race_frame(i, seq, name)
             elif r == "cb_before":         # a callback (not under a pending number) then the reply
                 d.frame((seq + 100) % 256, "stackStatusHandler")
                 d.frame(seq, name)
@@ -306,6 +332,12 @@ class Check(PropertyCheck):
             if "seq0" not in c:
                 c["seq0"] = rng.choice([rng.randrange(256), 254, 255, 253])
                 cases.append(c)
+        # the reply handled in the loop iteration in which the timeout expires: payload or timeout, nothing else, and the
+        # commands behind it are served as usual
+        for v in (4, 8):
+            for s0 in (0, 250, 255):
+                cases.append({"v": v, "seq0": s0, "calls": ["getEui64", "nop", "getNodeId"], "script": ["race", "reply", "race", "reply"]})
+                cases.append({"v": v, "seq0": s0, "calls": ["nop", "sendUnicast"], "script": ["race", "late", "race"]})
         # a call that ended without any reply (no answer, link-level send failure, caller cancelled) leaves its sequence
         # number behind; 256 commands later the number comes round again and that command must complete like any other
         for v in (4, 8):
@@ -331,6 +363,8 @@ class Check(PropertyCheck):
         return {k: v for k, v in case.items() if not k.startswith("_")}
 
     def model_input(self, case):
+        if any(e[0] == "race" for e in case["_events"]):
+            return None
         out = []
         for e in case["_events"]:
             if e[0] == "call":
@@ -405,7 +439,10 @@ class Check(PropertyCheck):
                     inflight = cid
                 elif e[0] == "ret":
                     _, cid, vals = e
-                    if ev[0] not in ("frame", "senddone"):
+                    if ev[0] == "race":
+                        if vals != enc_ivals(ev[4]) or pending.get(ev[2], (None,))[0] != cid:
+                            return f"command {cid} returned something else than the response that raced its timeout"
+                    elif ev[0] not in ("frame", "senddone"):
                         return f"command {cid} returned without a frame"
                     own = [s for s, (c, f) in pending.items() if c == cid]
                     if not own:
@@ -422,7 +459,7 @@ class Check(PropertyCheck):
                         # is still queued has sent nothing yet and cannot time out
                         if not any(c == e[1] for c, _f in pending.values()):
                             return f"command {e[1]} raised a timeout although its request was never sent (it was still queued)"
-                        if ev[0] != "timeout":
+                        if ev[0] not in ("timeout", "race"):
                             return f"command {e[1]} raised a timeout in a step where no timer fired ({ev[0]})"
                     if inflight == e[1]:
                         inflight = None
